@@ -8,6 +8,7 @@
 No change to rxsci is needed: a tap is an ordinary user-level operator.
 """
 import copy
+import math
 from array import array
 from collections import deque
 from fractions import Fraction
@@ -44,6 +45,38 @@ def verif_error(code):
     return (VerifError, VerifValueError, VerifTypeError, VerifLookupError)[k](code)
 
 
+class _Undecided(object):
+    def __bool__(self):
+        raise ValueError('the truth value of a comparison of array-like items is ambiguous')
+
+
+class Ambiguous(object):
+    """An item that can be carried around but not compared: == and != give a result without a
+    truth value (as numpy arrays, pandas objects and query expressions do)."""
+    __slots__ = ('n',)
+    _cache = {}
+
+    def __init__(self, n):
+        self.n = n
+
+    @classmethod
+    def of(cls, n):
+        if n not in cls._cache:
+            cls._cache[n] = cls(n)
+        return cls._cache[n]
+
+    def __eq__(self, other):
+        return _Undecided()
+
+    def __ne__(self, other):
+        return _Undecided()
+
+    __hash__ = object.__hash__
+
+    def __repr__(self):
+        return 'Ambiguous(%d)' % self.n
+
+
 # ------------------------------------------------------------------ value codec
 
 def enc(v):
@@ -58,7 +91,9 @@ def enc(v):
             return ['f', repr(v)]
         return ['i', v]
     if isinstance(v, float):
-        if v != v or v in (float('inf'), float('-inf')):
+        if v != v:
+            return ['nan']
+        if v in (float('inf'), float('-inf')):
             return ['f', repr(v)]
         fr = Fraction(v)
         if fr.denominator == 1:
@@ -71,6 +106,8 @@ def enc(v):
         if v.denominator == 1:
             return enc(int(v))
         return ['q', v.numerator, v.denominator]
+    if isinstance(v, Ambiguous):
+        return ['o', v.n]
     if isinstance(v, tuple):
         return ['t', [enc(x) for x in v]]
     if isinstance(v, (list, deque, array)):
@@ -98,6 +135,10 @@ def dec(d):
         return [dec(x) for x in d[1]]
     if k == 'q':
         return Fraction(d[1], d[2])
+    if k == 'o':
+        return Ambiguous.of(d[1])
+    if k == 'nan':
+        return math.nan           # the singleton: the same object every time
     raise C.MachineryError('cannot decode %r' % (d,))
 
 
@@ -157,6 +198,8 @@ def mk_fn(f, variant=None):
         g = lambda x: x[0] % c
     elif n == 'noneIf':
         g = lambda x: None if x == c else x
+    elif n == 'nanIf':
+        g = lambda x: math.nan if x == c else x
     elif n == 'failIf':
         def g(x):
             if x == c:
@@ -202,7 +245,38 @@ def mk_fn(f, variant=None):
                 return bool(v)                  # True == 1, False == 0
             return float(v) if cnt[0] % 3 == 1 else v
         return alt
+    if variant == 'strenum':
+        # members of a str-mixin Enum: they hash and compare like their value, their str() is
+        # something else ('K.M3')
+        return lambda x: _str_enum()['M%d' % (g(x) + 50)]
+    if variant == 'sentinel':
+        # one fixed object() per value: compared by identity only, not copyable into an equal
+        return lambda x: _SENTINELS.setdefault(g(x), _Sentinel(g(x)))
     raise C.MachineryError('unknown variant %r' % variant)
+
+
+class _Sentinel(object):
+    __slots__ = ('v',)
+
+    def __init__(self, v):
+        self.v = v
+
+    def __copy__(self):
+        return _Sentinel(self.v)          # a copy is another object, hence a different key
+
+    def __repr__(self):
+        return 'S%r' % (self.v,)
+
+
+_SENTINELS = {}
+_ENUM = []
+
+
+def _str_enum():
+    if not _ENUM:
+        import enum
+        _ENUM.append(enum.Enum('K', {'M%d' % j: 'k%d' % j for j in range(0, 200)}, type=str))
+    return _ENUM[0]
 
 
 def mk_pred(p):
@@ -369,6 +443,9 @@ def feedback_on_completion(ctx):
 
 # ------------------------------------------------------------------ descriptor -> operators
 
+_SW = [0]
+
+
 def real_op(op, rec, pre, i, ctx):
     """The real rxsci operator for descriptor `op` (position i of the pipeline at pre).
     rec is None for the plain (non multiplexed) code path: no taps, no inner pipelines."""
@@ -441,7 +518,17 @@ def real_op(op, rec, pre, i, ctx):
     if o == 'pad_end':
         return rs.data.pad_end(op['n'], dec(op['v']))
     if o == 'start_with':
-        return rs.ops.start_with([dec(x) for x in op['p']])
+        # the padding is an iterable: a list, a tuple, a deque or a dict view, by turns
+        pad = [dec(x) for x in op['p']]
+        _SW[0] += 1
+        kind = _SW[0] % 4
+        if kind == 1:
+            pad = tuple(pad)
+        elif kind == 2:
+            pad = deque(pad)
+        elif kind == 3 and len(set(map(repr, pad))) == len(pad) and all(isinstance(x, (int, str)) for x in pad):
+            pad = dict.fromkeys(pad).keys()
+        return rs.ops.start_with(pad)
     if o == 'batch':
         return rs.data.batch(op['n'])
     if o == 'to_list':
@@ -464,12 +551,19 @@ def real_op(op, rec, pre, i, ctx):
         return rs.data.sort(key=mk_fn(op['f']), reverse=op['reverse'])
     if o in ('roll', 'split', 'group_by', 'time_split'):
         inner = build(op['inner'], rec, list(pre) + [i, 1], ctx)
+
+        def built(operator):
+            # the caller goes on using its list after the operator was built: what the operator
+            # does is fixed at construction (unless the list is shared on purpose, share_ops)
+            if not ctx.get('share_ops'):
+                inner.append(rs.ops.filter(lambda x: False))
+            return operator
         if o == 'roll':
-            return rs.data.roll(op['w'], op['s'], pipeline=inner)
+            return built(rs.data.roll(op['w'], op['s'], pipeline=inner))
         if o == 'split':
-            return rs.data.split(mk_fn(op['f'], op.get('variant')), pipeline=inner)
+            return built(rs.data.split(mk_fn(op['f'], op.get('variant')), pipeline=inner))
         if o == 'group_by':
-            return rs.ops.group_by(mk_fn(op['f'], op.get('variant')), pipeline=inner)
+            return built(rs.ops.group_by(mk_fn(op['f'], op.get('variant')), pipeline=inner))
         tm = mk_fn(op['tm'])
         scale = ctx.get('timescale')
         if scale in ('datetime', 'datetime-days', 'datetime-ms'):
@@ -485,14 +579,18 @@ def real_op(op, rec, pre, i, ctx):
             tmf = tm
             conv = lambda n: None if n < 0 else n
         closing = None if op['closing']['n'] == 'none' else mk_pred(op['closing'])
-        return rs.data.time_split(time_mapper=tmf, active_timeout=conv(op['active']),
-                                  inactive_timeout=conv(op['inactive']),
-                                  closing_mapper=closing, include_closing_item=op['incl'],
-                                  pipeline=inner)
+        return built(rs.data.time_split(time_mapper=tmf, active_timeout=conv(op['active']),
+                                        inactive_timeout=conv(op['inactive']),
+                                        closing_mapper=closing, include_closing_item=op['incl'],
+                                        pipeline=inner))
     if o == 'tee':
         branches = [build(b, rec, list(pre) + [i, bi + 1], ctx)
                     for bi, b in enumerate(op['branches'])]
-        return rs.ops.tee_map(*branches, join=op['join'])
+        t = rs.ops.tee_map(*branches, join=op['join'])
+        if not ctx.get('share_ops'):
+            for b in branches:       # (as for the inner pipelines above)
+                b.append(rs.ops.filter(lambda x: False))
+        return t
     raise C.MachineryError('unknown operator %r' % (op,))
 
 
